@@ -12,24 +12,24 @@ with open(_os.path.join(_os.path.dirname(_os.path.abspath(__file__)), "theorems_
 
 REGISTRY = {
     "C02": {
-        "level": "proof", "claimed": False,
-        "modules": [], "theorems": [],
+        "level": "proof",
+        "modules": ["CoCoVerif.Props.C02"], "theorems": _T["C02"],
         "rule": "cases = directed layout programs (ORG first / later / code before ORG, duplicate and undefined symbols, origins below $100), random "
                 "grammar-directed programs, README mutations, EQU/label matrix; on every accepted program the implementation's listing is re-checked: "
                 "image = concatenation, address(i+1) = address(i) + bytes(i), label value = listing address",
         "assumptions": [],
     },
     "C03": {
-        "level": "proof", "claimed": False,
-        "modules": [], "theorems": [],
+        "level": "proof",
+        "modules": ["CoCoVerif.Props.C03"], "theorems": _T["C03"],
         "rule": "cases = all short/long branch mnemonics and label,PCR / [label,PCR] operands (1- and 2-byte opcodes) at distances around the 8-bit and 16-bit "
                 "limits forward and backward, label+-k forms, programs with several interdependent PCR statements, random programs; every branch / PCR "
                 "statement is decoded and (next address + displacement) mod 65536 compared with the target",
         "assumptions": [],
     },
     "C13": {
-        "level": "proof", "claimed": False,
-        "modules": [], "theorems": [],
+        "level": "proof",
+        "modules": ["CoCoVerif.Props.C13"], "theorems": _T["C13"],
         "rule": "cases = README mutations, random lines over the source alphabet, random programs, interdependent PCR stress programs at every distance "
                 "118..131, INCLUDE trees incl. missing files and cycles, data directives; outcome must be ok or diag within a 3 s watchdog; a sample is "
                 "run through assembler.main with output switches: a diagnostic must give a non-zero exit and leave every output file untouched",
@@ -159,7 +159,7 @@ REGISTRY = {
         "level": "proof",
         "family": "dsk",
         "modules": ["CoCoVerif.Props.C07", "CoCoVerif.Props.C08"],
-        "theorems": [P + "C07_partial", P + "C07_write_list", P + "C07_reader_partial", P + "C08_full"],
+        "theorems": [P + "C07_partial", P + "C07_write_list", P + "C07_reader_partial", P + "C07_finding_zeroSector", P + "C07_Statement_false", P + "C08_full"],
         "rule": "cases = seeded histories of 1..5 files (ML / BASIC / ASCII, names 1..12 letters/digits either case, lengths within 12 bytes of "
                 "multiples of 2304 and 256 and random, arbitrary content) under the default, ascending, descending and shuffled fill orders, "
                 "written and listed back (dsk.rt); well-formed fragmented images built from the format description with random disjoint chains and "
@@ -203,6 +203,36 @@ NOT_BUILT = "check not built yet at this commit (work in progress; see DESIGN.md
 NOT_APPLICABLE = {("C%02d" % i): NOT_BUILT for i in range(1, 20)}
 
 MANIFEST_TEXT = {
+    "C02": {
+        "text": "Lean: C02_chain (in every accepted program each statement has a numeric address, the first non-ORG statement sits at 0 and every non-ORG statement "
+                "starts at its predecessor's address + size), C02_telescope, C02_org_address (only ORG presets an address), C02_image (image = concatenation "
+                "of the statements' bytes), C02_offset (if every statement emits as many bytes as its size and no ORG follows the first byte, the bytes of "
+                "statement i sit at offset address(i) - origin), C02_symbols (labels are bound to the listing address of their statement, EQU symbols to their "
+                "operand value), C02_duplicate_label (a label occurring twice => diagnostic); C02_Statement_false with kernel-checked witnesses "
+                "(LDA -100,X: size 2, 3 bytes; an ORG in mid-program is accepted).",
+        "design_ref": "DESIGN.md section 5 C02, section 6 B",
+        "note": "known findings B1 and the size-mismatch classes A3/A4/A5/A7/A9/A11; 'byte count = size' is not a theorem (false), it is the oracle's job",
+        "technique": "Lean 4 proof (address fold induction, frame lemmas for the later passes, symbol-table lemmas) + differential correspondence + listing re-computation oracle",
+    },
+    "C03": {
+        "text": "Lean: C03_diag_iff (a short branch is a diagnostic exactly when its target is out of -128..+127), C03_field / C03_bytes (the stored displacement is "
+                "the sum of the statement sizes between branch and target, negated backward), C03_branch (with no ORG in between: target address = address "
+                "+ size + sext(d8), resp. mod 65536 for long branches — by telescoping sizes into addresses), C03_pcr (a label,PCR operand stores target - "
+                "address - size, reduced mod 65536 in the 16-bit form); C03_Statement_false (branch across an ORG). The invariant '8-bit form only if the "
+                "offset fits' is NOT proved; the former kernel-checked counterexample to it was repaired (fix aafdc4b) and distances are swept by the oracle.",
+        "design_ref": "DESIGN.md section 5 C03, section 6 B",
+        "note": "known findings B3, A9, B1 (branch across ORG); the PCR width invariant is validated by sweeps and interacting-PCR generators only",
+        "technique": "Lean 4 proof (telescoping size sums to address differences; fixOne case analysis) + differential correspondence + decode-and-check-target oracle",
+    },
+    "C13": {
+        "text": "Lean: pcrLoop_not_diverged / assemble_not_diverged (the PCR size loop and hence the whole assembly terminates for EVERY input: each pass settles a "
+                "statement or the progress guard forces one, so #statements + 1 passes suffice), parseLine_no_internal / parseLines_no_internal (parsing ends "
+                "in a statement list or a diagnostic, never an internal error), asmMain_failure (C10 file: no successful assembly => exit 1, no file created or "
+                "modified); C13_Statement_false: INCLUDE of a missing file is an internal error (finding I2).",
+        "design_ref": "DESIGN.md section 5 C13, section 6 I",
+        "note": "known finding I2; absence of internal errors in the later passes is validated by mutation / random streams under a watchdog, not proved",
+        "technique": "Lean 4 proof (termination measure for the size fixpoint; outcome case analysis of the parser) + differential correspondence with watchdog + CLI exit-status oracle",
+    },
     "C17": {
         "text": "Translation validation of a stateless model: the Lean model assemble is a pure function (C17_history_free, C17_repeatable are immediate), so the "
                 "content of this property is whether the PYTHON code carries state between assemblies; that is decided by running the implementation on "
